@@ -1,19 +1,29 @@
 // gvh-iso — dynamic tie of C20 (independent runtimes are isolated).
 //
 // input : <id> <hex program A> <hex program B> <schedule over {A,B}> [opts=cpu:N,regpool:N,regage:N]
-//         opts: RuntimeOptions given to rt.New for program A's runtimes ONLY (WithRuntimeContext with a hard
-//         CPU limit, WithRegPoolSize, WithRegSetMaxAge); B's runtimes are always created without options, after
-//         A's.  With the command-line argument "noopts" the opts field is ignored (reference run: B must
-//         behave the same in both runs).
-//         a program is a sequence of chunks separated by a line "--"; chunks of one program
-//         run in order in ONE Runtime (fresh rt.New + lib.LoadAll), sharing its globals;
-//         a chunk that fails (compile or run time) records the error and the program goes on
+//
+//	opts: RuntimeOptions given to rt.New for program A's runtimes ONLY (WithRuntimeContext with a hard
+//	CPU limit, WithRegPoolSize, WithRegSetMaxAge); B's runtimes are always created without options, after
+//	A's.  With the command-line argument "noopts" the opts field is ignored (reference run: B must
+//	behave the same in both runs).
+//	a program is a sequence of chunks separated by a line "--"; chunks of one program
+//	run in order in ONE Runtime (fresh rt.New + lib.LoadAll), sharing its globals;
+//	a chunk that fails (compile or run time) records the error and the program goes on
+//
 // output: <id> SA:<trace> SB:<trace> QA:<trace> QB:<trace> CA:<trace> CB:<trace>
-//         S = the program alone; Q = the two programs interleaved chunk by chunk on one
-//         goroutine following the schedule (remaining chunks appended); C = the two programs
-//         on two goroutines, each creating and loading its own Runtime concurrently.
-//         trace = events joined by ';' — emit(...) arguments, chunk errors, stdout at the end
-//         (hex encoded as a whole)
+//
+//	S = the program alone; Q = the two programs interleaved chunk by chunk on one
+//	goroutine following the schedule (remaining chunks appended); C = the two programs
+//	on two goroutines, each creating and loading its own Runtime concurrently.
+//	trace = events joined by ';' — emit(...) arguments, chunk errors, stdout at the end
+//	(hex encoded as a whole)
+//	schedule letters: A / B = next chunk of that program; a / b = the host closes that program's runtime now
+//	(lib cleanup + Runtime.Close; its remaining chunks are not run); x / y = the host drops A's / B's runtime
+//	and forces Go garbage collections (the runtime's Go finaliser closes it).  The solo and concurrent runs
+//	of a program stop at the same point in the same way.
+//	Each run mode (A alone, B alone, interleaved, concurrent) gets fresh scratch files as the process's
+//	os.Stdin / os.Stdout / os.Stderr (directory $GVH_SCRATCH), which is what the runtimes' io.stdin/stdout/stderr wrap.
+//
 // GOMAXPROCS is taken from the environment.  Built with -race the detector's reports go to stderr.
 package main
 
@@ -24,9 +34,11 @@ import (
 	"fmt"
 	"math"
 	"os"
+	"runtime"
 	"strconv"
 	"strings"
 	"sync"
+	"time"
 
 	"github.com/arnodel/golua/lib"
 	rt "github.com/arnodel/golua/runtime"
@@ -62,6 +74,7 @@ type machine struct {
 	trace   []string
 	chunks  []string
 	pc      int
+	closed  bool
 }
 
 func parseOpts(spec string) []rt.RuntimeOption {
@@ -105,7 +118,39 @@ func newMachine(src string, opts ...rt.RuntimeOption) *machine {
 	return m
 }
 
-func (m *machine) done() bool { return m.pc >= len(m.chunks) }
+func (m *machine) done() bool { return m.closed || m.pc >= len(m.chunks) }
+
+// end the runtime the way the host would: kind 'c' = cleanup + Close, 'd' = drop it and let the Go finaliser run
+func (m *machine) end(kind byte) {
+	if m.closed {
+		return
+	}
+	m.closed = true
+	func() {
+		defer func() {
+			if x := recover(); x != nil {
+				m.trace = append(m.trace, "CLOSEPANIC:"+strconv.Quote(fmt.Sprint(x)))
+			}
+		}()
+		if kind == 'c' {
+			if m.cleanup != nil {
+				m.cleanup()
+			}
+			m.r.Close(nil)
+			m.trace = append(m.trace, "CLOSED")
+		} else {
+			m.trace = append(m.trace, "DROPPED")
+		}
+	}()
+	m.cleanup = nil
+	m.r = nil
+	if kind == 'd' {
+		for i := 0; i < 3; i++ {
+			runtime.GC()
+			time.Sleep(2 * time.Millisecond)
+		}
+	}
+}
 
 func (m *machine) step() {
 	src := m.chunks[m.pc]
@@ -139,12 +184,66 @@ func (m *machine) finish() string {
 	return hex.EncodeToString([]byte(s))
 }
 
-func solo(src string, opts ...rt.RuntimeOption) string {
+// plan: how many chunks of a program run before the host ends its runtime, and how (0 = not at all)
+type plan struct {
+	steps int
+	end   byte
+}
+
+func planOf(sched string, step, closeC, dropC byte, nchunks int) plan {
+	n := 0
+	for i := 0; i < len(sched); i++ {
+		switch sched[i] {
+		case step:
+			if n < nchunks {
+				n++
+			}
+		case closeC:
+			return plan{n, 'c'}
+		case dropC:
+			return plan{n, 'd'}
+		}
+	}
+	return plan{nchunks, 0}
+}
+
+func solo(src string, p plan, opts ...rt.RuntimeOption) string {
 	m := newMachine(src, opts...)
-	for !m.done() {
+	for k := 0; !m.done() && (p.end == 0 || k < p.steps); k++ {
 		m.step()
 	}
+	if p.end != 0 {
+		m.end(p.end)
+	}
 	return m.finish()
+}
+
+var scratchDir string
+var stdFiles []*os.File
+
+// freshStd gives the process new scratch files as os.Stdin / os.Stdout / os.Stderr (the real descriptors 0-2 are
+// not touched: the protocol and the race detector keep using them).
+func freshStd() {
+	for _, f := range stdFiles {
+		f.Close()
+		os.Remove(f.Name())
+	}
+	stdFiles = stdFiles[:0]
+	mk := func(name, content string) *os.File {
+		f, err := os.CreateTemp(scratchDir, name)
+		if err != nil {
+			panic(err)
+		}
+		if content != "" {
+			f.WriteString(content)
+			f.Seek(0, 0)
+		}
+		stdFiles = append(stdFiles, f)
+		return f
+	}
+	os.Stdin = mk("stdin-*", strings.Repeat("line of standard input\n", 400))
+	os.Stdout = mk("stdout-*", "")
+	os.Stderr = mk("stderr-*", "")
 }
 
 func main() {
@@ -153,11 +252,18 @@ func main() {
 	in.Buffer(make([]byte, 1<<20), 1<<26)
 	out := bufio.NewWriter(os.Stdout)
 	defer out.Flush()
-	// Lua's io.stdout/io.stdin (the process's real files) must not touch the protocol streams
-	if null, err := os.OpenFile("/dev/null", os.O_RDWR, 0); err == nil {
-		os.Stdin = null
-		os.Stdout = null
+	// Lua's io.stdin/stdout/stderr wrap os.Stdin/os.Stdout/os.Stderr: scratch files, never the protocol streams
+	scratchDir = os.Getenv("GVH_SCRATCH")
+	if scratchDir == "" {
+		scratchDir = os.TempDir()
 	}
+	os.MkdirAll(scratchDir, 0o755)
+	defer func() {
+		for _, f := range stdFiles {
+			f.Close()
+			os.Remove(f.Name())
+		}
+	}()
 	for in.Scan() {
 		f := strings.Fields(in.Text())
 		if len(f) < 4 {
@@ -170,14 +276,34 @@ func main() {
 		if len(f) > 4 && strings.HasPrefix(f[4], "opts=") && !noopts {
 			optsA = parseOpts(f[4][5:])
 		}
-		sa, sb := solo(A, optsA...), solo(B)
+		sched := f[3]
+		na, nb := len(strings.Split(A, "\n--\n")), len(strings.Split(B, "\n--\n"))
+		pa, pb := planOf(sched, 'A', 'a', 'x', na), planOf(sched, 'B', 'b', 'y', nb)
+		freshStd()
+		sa := solo(A, pa, optsA...)
+		freshStd()
+		sb := solo(B, pb)
 		// sequential interleaving
+		freshStd()
 		ma, mb := newMachine(A, optsA...), newMachine(B)
-		for _, c := range f[3] {
-			if c == 'A' && !ma.done() {
-				ma.step()
-			} else if c == 'B' && !mb.done() {
-				mb.step()
+		for i := 0; i < len(sched); i++ {
+			switch sched[i] {
+			case 'A':
+				if !ma.done() {
+					ma.step()
+				}
+			case 'B':
+				if !mb.done() {
+					mb.step()
+				}
+			case 'a':
+				ma.end('c')
+			case 'x':
+				ma.end('d')
+			case 'b':
+				mb.end('c')
+			case 'y':
+				mb.end('d')
 			}
 		}
 		for !ma.done() || !mb.done() {
@@ -189,13 +315,14 @@ func main() {
 			}
 		}
 		qa, qb := ma.finish(), mb.finish()
-		// concurrent: creation, loading and running on two goroutines
+		// concurrent: creation, loading, running and closing on two goroutines
+		freshStd()
 		var ca, cb string
 		var wg sync.WaitGroup
 		start := make(chan struct{})
 		wg.Add(2)
-		go func() { defer wg.Done(); <-start; ca = solo(A, optsA...) }()
-		go func() { defer wg.Done(); <-start; cb = solo(B) }()
+		go func() { defer wg.Done(); <-start; ca = solo(A, pa, optsA...) }()
+		go func() { defer wg.Done(); <-start; cb = solo(B, pb) }()
 		close(start)
 		wg.Wait()
 		fmt.Fprintf(out, "%s SA:%s SB:%s QA:%s QB:%s CA:%s CB:%s\n", f[0], sa, sb, qa, qb, ca, cb)
